@@ -77,6 +77,7 @@ inline void ConcurrentBoundedQueue<T, S>::SlotFutex::wakeup_waiters(
   // 则跳过本次唤醒，交给推进版本的后续发起方执行，减少重复
   if (_futex.value().compare_exchange_strong(
           current_version_and_waiters, version, ::std::memory_order_relaxed)) {
+    BABYLON_VERIF_POINT("bq:batch_before_wake");
     _futex.wake_all();
   }
 }
@@ -90,6 +91,7 @@ ConcurrentBoundedQueue<T, S>::SlotFutex::set_version_and_wakeup_waiters(
   if (current_version_and_waiters <= UINT16_MAX) {
     return;
   }
+  BABYLON_VERIF_POINT("bq:single_before_wake");
   _futex.wake_all();
 }
 
@@ -132,6 +134,7 @@ ABSL_ATTRIBUTE_NOINLINE void ConcurrentBoundedQueue<T, S>::SlotFutex::
           current_version_and_waiters + UINT16_MAX + 1;
       if (!_futex.value().compare_exchange_strong(
               current_version_and_waiters, wait_version_and_waiters, order)) {
+        BABYLON_VERIF_POINT("bq:wait_cas_failed");
         // 设置失败重新校验版本
         version = current_version_and_waiters;
         if (version == expected_version) {
@@ -142,6 +145,7 @@ ABSL_ATTRIBUTE_NOINLINE void ConcurrentBoundedQueue<T, S>::SlotFutex::
       }
       current_version_and_waiters = wait_version_and_waiters;
     }
+    BABYLON_VERIF_POINT("bq:wait_registered");
     // 执行等待
     errno = 0;
     _futex.wait(current_version_and_waiters, timeout);
@@ -455,6 +459,7 @@ inline void ConcurrentBoundedQueue<T, S>::push(C&& callback) {
   if (!CONCURRENT) {
     _next_push_index.store(index + 1, ::std::memory_order_relaxed);
   }
+  BABYLON_VERIF_POINT("bq:push_ticket");
   // 处理单个数据
   deal<USE_FUTEX_WAIT, USE_FUTEX_WAKE, true>(::std::forward<C>(callback),
                                              index);
@@ -530,6 +535,7 @@ inline void ConcurrentBoundedQueue<T, S>::push_n(C&& callback, size_t num) {
   if (!CONCURRENT) {
     _next_push_index.store(index + num, ::std::memory_order_relaxed);
   }
+  BABYLON_VERIF_POINT("bq:push_n_ticket");
   auto next_round_begin_index = (index + _slot_mask + 1) & ~_slot_mask;
   if (index + num <= next_round_begin_index) {
     deal_n_continuously<USE_FUTEX_WAIT, USE_FUTEX_WAKE, true>(
@@ -621,6 +627,7 @@ inline void ConcurrentBoundedQueue<T, S>::pop(C&& callback) {
   if (!CONCURRENT) {
     _next_pop_index.store(index + 1, ::std::memory_order_relaxed);
   }
+  BABYLON_VERIF_POINT("bq:pop_ticket");
   // 处理单个数据
   deal<USE_FUTEX_WAIT, USE_FUTEX_WAKE, false>(::std::forward<C>(callback),
                                               index);
@@ -690,6 +697,7 @@ inline void ConcurrentBoundedQueue<T, S>::pop_n(C&& callback, size_t num) {
   if (!CONCURRENT) {
     _next_pop_index.store(index + num, ::std::memory_order_relaxed);
   }
+  BABYLON_VERIF_POINT("bq:pop_n_ticket");
   auto next_round_begin_index = (index + _slot_mask + 1) & ~_slot_mask;
   if (index + num <= next_round_begin_index) {
     deal_n_continuously<USE_FUTEX_WAIT, USE_FUTEX_WAKE, false>(
@@ -837,8 +845,10 @@ inline bool ConcurrentBoundedQueue<T, S>::try_deal(C&& callback) noexcept {
     }
     if CONSTEXPR_SINCE_CXX17 (CONCURRENT) {
       // 竞争获取序号
+      BABYLON_VERIF_POINT("bq:try_before_cas");
       if (!next_index.compare_exchange_weak(index, index + 1,
                                             ::std::memory_order_relaxed)) {
+        BABYLON_VERIF_POINT("bq:try_cas_lost");
         continue;
       }
     } else {
@@ -893,6 +903,7 @@ inline void ConcurrentBoundedQueue<T, S>::deal_n_continuously(
   }
   // 批量唤醒等待者
   if (USE_FUTEX_WAKE) {
+    BABYLON_VERIF_POINT("bq:batch_versions_stored");
     // 对版本变更/检测和等待者注册/唤醒间建立全序关系
     // 用来保证成功注册的等待者一定会被唤醒
     ::std::atomic_thread_fence(::std::memory_order_seq_cst);
@@ -919,6 +930,7 @@ inline void ConcurrentBoundedQueue<T, S>::deal_n_continuously(
               ? _next_pop_index.load(::std::memory_order_relaxed) + capacity()
               : _next_push_index.load(::std::memory_order_relaxed);
       if (need_index <= index + num) {
+        BABYLON_VERIF_POINT("bq:compensate");
         if (PUSH_OR_POP) {
           try_pop_n<true, false>(::std::forward<RC>(reverse_callback), 1);
         } else {
@@ -973,8 +985,10 @@ inline size_t ConcurrentBoundedQueue<T, S>::try_deal_n_continuously(
   // 根据实际num推进生产/消费序号
   auto& next_index = PUSH_OR_POP ? _next_push_index : _next_pop_index;
   if (CONCURRENT) {
+    BABYLON_VERIF_POINT("bq:try_n_before_cas");
     if (!next_index.compare_exchange_strong(index, index + num,
                                             ::std::memory_order_relaxed)) {
+      BABYLON_VERIF_POINT("bq:try_n_cas_lost");
       return 0;
     }
   } else {
@@ -1002,6 +1016,7 @@ inline size_t ConcurrentBoundedQueue<T, S>::try_deal_n_continuously(
   }
   // 批量唤醒等待者
   if (USE_FUTEX_WAKE) {
+    BABYLON_VERIF_POINT("bq:batch_versions_stored");
     // 对版本变更/检测和等待者注册/唤醒间建立全序关系
     // 用来保证成功注册的等待者一定会被唤醒
     ::std::atomic_thread_fence(::std::memory_order_seq_cst);
